@@ -710,12 +710,18 @@ class LoopCanon(ast.NodeTransformer):
         if seq_text not in subs:
             return node
         seqs = [seq_text] + sorted(t for t in subs if t != seq_text)
-        if any(_mutated_in(node.body, t) for t in seqs):
+        if _mutated_in(node.body, seq_text):
             return node
+        for t in [t for t in seqs[1:] if _mutated_in(node.body, t)]:
+            other += len(subs.pop(t))       # a sequence that is written through the index keeps its subscripts
+            seqs.remove(t)
         if direction == 'down' and (len(seqs) > 1 or other):
             return node
         if len(seqs) > 1 and other:
-            return node
+            # the index is needed anyway (e.g. a store buffer[i] = ...): only the iterated sequence becomes the element, the other subscripts keep the index
+            for t in [t for t in subs if t != seq_text]:
+                other += len(subs.pop(t))
+            seqs = [seq_text]
         names = {t: self.fresh(t.split('.')[-1]) for t in seqs}
         repl = {}
         for t, nodes in subs.items():
@@ -855,6 +861,37 @@ class WhileCounter(ast.NodeTransformer):
                 if ok and body:
                     args = [bound] if s.value.value == 0 else [s.value, bound]
                     new = ast.For(target=ast.Name(id=v, ctx=ast.Store()), iter=ast.Call(func=ast.Name(id='range', ctx=ast.Load()), args=args, keywords=[]), body=body, orelse=[], type_comment=None)
+                    ast.copy_location(new, nxt)
+                    ast.fix_missing_locations(new)
+                    out.append(new)
+                    i += 2
+                    continue
+            # i = c - 1 ; while i + 1 < N: i += 1 ; BODY        ->   for i in range(c, N): BODY         (increment first: `continue` / `break` in BODY keep their meaning)
+            if isinstance(s, ast.Assign) and len(s.targets) == 1 and isinstance(s.targets[0], ast.Name) and isinstance(nxt, ast.While) and not nxt.orelse and len(nxt.body) >= 2 \
+                    and isinstance(nxt.test, ast.Compare) and len(nxt.test.ops) == 1 and isinstance(nxt.test.ops[0], ast.Lt) and isinstance(nxt.test.left, ast.BinOp) \
+                    and isinstance(nxt.test.left.op, ast.Add) and isinstance(nxt.test.left.left, ast.Name) and nxt.test.left.left.id == s.targets[0].id \
+                    and isinstance(nxt.test.left.right, ast.Constant) and nxt.test.left.right.value == 1:
+                v = s.targets[0].id
+                start = None
+                if isinstance(s.value, ast.UnaryOp) and isinstance(s.value.op, ast.USub) and isinstance(s.value.operand, ast.Constant) and s.value.operand.value == 1:
+                    start = 0
+                elif isinstance(s.value, ast.Constant) and isinstance(s.value.value, int):
+                    start = s.value.value + 1
+                first = nxt.body[0]
+                ok = start is not None and isinstance(first, ast.AugAssign) and isinstance(first.target, ast.Name) and first.target.id == v and isinstance(first.op, ast.Add) \
+                    and isinstance(first.value, ast.Constant) and first.value.value == 1
+                bound = nxt.test.comparators[0]
+                bnames = {n.id for n in ast.walk(bound) if isinstance(n, ast.Name)}
+                if ok:
+                    for st in nxt.body[1:]:
+                        for n in ast.walk(st):
+                            if isinstance(n, ast.Name) and isinstance(n.ctx, (ast.Store, ast.Del)) and (n.id == v or n.id in bnames):
+                                ok = False
+                    if any(isinstance(n, ast.Name) and n.id == v and isinstance(n.ctx, ast.Load) for st in stmts[i + 2:] for n in ast.walk(st)):
+                        ok = False
+                if ok:
+                    args = [bound] if start == 0 else [ast.Constant(value=start), bound]
+                    new = ast.For(target=ast.Name(id=v, ctx=ast.Store()), iter=ast.Call(func=ast.Name(id='range', ctx=ast.Load()), args=args, keywords=[]), body=nxt.body[1:], orelse=[], type_comment=None)
                     ast.copy_location(new, nxt)
                     ast.fix_missing_locations(new)
                     out.append(new)
